@@ -55,6 +55,7 @@ REQUIRED = [
     "cli_runs_judged", "cli_opb", "cli_latex", "cli_by_extension", "pbgen_runs", "process_runs_judged",
     "family_formulas", "empty_formula_vs_empty_row_compared",
     "shield_header_cases", "shield_varname_cases", "shield_controls_silent",
+    "long_line_cases",
 ]
 CASE_TIMEOUT = {"quick": 120, "thorough": 600}
 
@@ -851,6 +852,39 @@ def case_shield(ctx, cls, where):
                                            "header": header, "varnames": varnames})
 
 
+def case_long_lines(ctx, cls):
+    """Header values, descriptions and variable names far longer than a terminal line (one line each): the OPB text
+    must keep them inside comments, whatever the writer does to long lines."""
+    with TempDir() as tmp:
+        serial = 0
+        words = "the quick brown fox jumps over the lazy dog +1 x1 >= 1 ; "
+        for length in (90, 99, 100, 130, 400, 2000):
+            value = (words * (length // len(words) + 1))[:length].rstrip()
+            for where in ("header", "description", "varname", "command-line"):
+                for how in ("explicit", "extension", "writer"):
+                    if where == "varname":
+                        F = shield_formula(cls, name=value.replace(" ", "_"))
+                    else:
+                        F = shield_formula(cls)
+                        if where == "header":
+                            F.header["note"] = value
+                        elif where == "description":
+                            F.header["description"] = value
+                        else:
+                            F.header["command line"] = "cnfgen php 3 2 " + " ".join(["-T shuffle"] * (length // 11))
+                    mem = Memory(F)
+                    fid = mem.digest(F)
+                    serial += 1
+                    st, text = render(ctx, F, (how, "opb", True, True), tmp, serial)
+                    label = "%s %s(opb, header and varnames on), %s of %d characters" % (cls, how, where, length)
+                    if st == "exc":
+                        ctx.violation("render:opb:%s:raises:%s" % (mem.kind.upper(), type(text).__name__), "%s raised %r" % (label, text))
+                    else:
+                        judge_opb(ctx, F, mem, text, label, True, True)
+                    ctx.count("long_line_cases")
+                    ctx.judged(("long-line", cls, where, length, how, fid), sample={"class": cls, "long": where, "length": length, "path": how})
+
+
 # --------------------------------------------------------------------------- workload
 FAMILY_COMMANDS = """
 cnfgen php 3 2 | cnfgen php 5 4 | cnfgen bphp 3 2 | cnfgen op 3 | cnfgen op 4 --total
@@ -934,6 +968,8 @@ def workload(tier, seed):
     for cls in ("CNF", "OPB"):
         for where in ("header", "varname"):
             yield "shield", {"cls": cls, "where": where}
+    for cls in ("CNF", "OPB"):
+        yield "long_lines", {"cls": cls}
     for ch in chunks(PROCESS_RUNS, 2 if quick else 1):
         yield "process", {"runs": [list(x) for x in ch]}
     for ch in chunks(cli_runs(tier, seed), 5):
